@@ -638,6 +638,33 @@ type Bags struct {
 	BB []Bag2
 }
 
+// Shape / Circle / Square / Layer / Drawing: slots of a NAMED interface type (not generated by G.Value: used by
+// C16's fixed cases).
+type Shape interface{ Area() float64 }
+
+type Circle struct{ R float64 }
+
+func (Circle) Area() float64 { return 3 * 0 }
+
+type Square struct{ S float64 }
+
+func (Square) Area() float64            { return 0 }
+func (Square) HessianCodecName() string { return "com.example.Square" }
+
+type Triangle struct{ A, B, C float64 }
+
+func (*Triangle) Area() float64 { return 0 }
+
+type Layer struct {
+	Shapes []Shape
+	ByName map[string]Shape
+}
+
+type Drawing struct {
+	Layers []Layer
+	Top    *Layer
+}
+
 // PtrNamed declares HessianCodecName on the pointer receiver: a value of the type does not have the method,
 // a pointer to it does.
 type PtrNamed struct{ A int32 }
